@@ -9,6 +9,17 @@ CHECKS = {
          "All 5 913 insertion orders of 1..7 keys are executed against the real skip list under two comparators and every probe / bound pair is compared with a sorted-slice model; beyond that seeded random orders up to 2 000 keys and seeded k-way merges are monitored. Exhaustive for the small sub-space, sampled beyond; right level because the structures are pure in-memory code with no schedule or fault dimension.",
          "trusts Go's sort package and the 30-line model; comparators assumed consistent", "§3 C16", "E1"),
 }
+CHECKS.update({
+ "C04": ("exploration", "reference-model monitor: list-of-surviving-records model shadowing writer programs, then sequential/skip, random-access and seek-next-from-every-offset read-back",
+         "Seeded writer programs (incl. seek-back) x 4 compressions x buffer sizes x buffered/direct I/O are executed with the real writer and read back through every reader/access path; SeekNext is compared with the model at every byte offset of small files. Exploration: bounded by the seeded case list, biased to marker bytes and buffer/page/4KiB-window boundaries.",
+         "trusts the 90-line independent layout parser only as a cross-check; payloads embedding a complete valid record image are excluded (format-level ambiguity)", "§3 C04", "E1"),
+ "C12": ("fault_enumeration", "fault enumeration on generated files: every truncation length, every record-header byte x 255 values, every unsupported file-header value; oracle = independent layout parser + written records",
+         "For each generated file every truncation length and every single-byte alteration of every record-header byte (all 255 values on small files) is materialised and read with both readers; the oracle demands genuine records only. Exhaustive over single-byte header damage for the generated files, sampled over files.",
+         "header byte positions come from the harness's own parser (cross-checked against the writer's offsets on the undamaged file)", "§3 C12", "E1"),
+ "C14": ("exploration", "reference-model monitor: map-with-tombstones model shadowing every memstore call; flush read back through the real table reader",
+         "Every result/error of seeded call sequences over all methods is compared with the model, then both flush variants are read back with the real SSTable reader (Scan and Get, nil vs empty). Exploration over seeded programs; right level for a single-threaded in-memory structure.",
+         "size estimate checked only for wrap-around (bounded by 4x bytes ever passed)", "§3 C14", "E1"),
+})
 NOT_YET = {}
 props = [json.loads(l) for l in open(os.path.join(ROOT, "properties.jsonl"))]
 hooks_commits = []
